@@ -146,10 +146,9 @@ def reduced_sigs(sigs):
             cls = ("addsub", s.args)
         elif base in ("mul", "div", "mod"):
             cls = ("muldiv", base if base == "mod" else "md", s.args)
-        elif base in ("lt", "le", "gt", "ge"):
-            cls = ("ord", s.args)
-        elif base in ("eq", "ne"):
-            cls = ("eqne", s.args)
+        elif base in ("lt", "le", "gt", "ge", "eq", "ne"):
+            # each comparator has its own table entry in every backend: keep all six, but only on one operand type per kind
+            cls = ("cmp", base, "num" if set(s.args) <= {typed.I, typed.R} else s.args)
         elif base in ("year", "month", "day", "hour", "minute", "second"):
             cls = ("datepart",)
         elif base in ("tolower", "toupper"):
@@ -274,11 +273,14 @@ def _short(x):
 
 
 def _generic_unit(unit):
-    bname, which, k, si, split, kwcase = unit
+    bname, which, k, si, split, kwcase = unit[:6]
+    stripe = unit[6] if len(unit) > 6 else None
     bk = _BK[bname]
     acc = Acc()
     en = _enum(bk, which)
     for i, term in enumerate(en.apply(en.sigs[si], k, only_split=split)):
+        if stripe and i % stripe[1] != stripe[0]:
+            continue
         check_term_generic(acc, bk, term, kwcase=kwcase)
         if i == 0:
             acc.sample({"filter": to_odata(term), "layer": "%s k=%d" % (which, k)}, cap=1)
@@ -310,6 +312,7 @@ def generic_layer(ctx, bk, which, k, kwcase=False, block=None):
     units = [(bk.name, which, k, si, split, kwcase) for si, split in en.work_units(typed.B, k)]
     if block:
         units = [u for i, u in enumerate(units) if i % block[1] == block[0]]
+    units = [u + ((j, 4),) for u in units for j in range(4)]      # stripes: even out the few very large units
     before = ctx.counts["states"]
     ctx.pmap(_generic_unit, units)
     return int(ctx.counts["states"] - before)
